@@ -2,7 +2,9 @@
 package props
 
 import (
+	"os"
 	"sort"
+	"strings"
 
 	"verifharness/run"
 )
@@ -34,7 +36,11 @@ type famSpec struct {
 
 func buildCases(specs []famSpec, tier string, seed uint64) []run.CaseID {
 	var out []run.CaseID
+	only := os.Getenv("VERIF_ONLY_FAMILIES") // developer aid: comma-separated family filter (never set by registered commands)
 	for _, s := range specs {
+		if only != "" && !strings.Contains(","+only+",", ","+s.Family+",") {
+			continue
+		}
 		if s.Pool > 0 {
 			if tier == "thorough" {
 				for i := uint64(0); i < s.Pool; i++ {
